@@ -20,7 +20,7 @@ type KeysGen struct {
 	stats map[string]int
 }
 
-const idAlphabet = "abcxyzABZ019._+-#[]<>"
+const keyNameAlphabet = "abcxyzABZ019._+-#[]<>"
 
 func (g *KeysGen) name(allowSlash bool) string {
 	n := 1 + g.r.Intn(6)
@@ -32,7 +32,7 @@ func (g *KeysGen) name(allowSlash bool) string {
 		if allowSlash && g.r.Chance(8) {
 			b.WriteByte('/')
 		} else {
-			b.WriteByte(idAlphabet[g.r.Intn(len(idAlphabet))])
+			b.WriteByte(keyNameAlphabet[g.r.Intn(len(keyNameAlphabet))])
 		}
 	}
 	if g.r.Chance(5) {
